@@ -473,8 +473,38 @@ fn check_type(ctx: &Ctx, rng: &mut Rng, st: &mut St) {
     }
     let single_array = matches!(t, Ty::Array(..));
     // identity program (a second parameter avoids the "single array = one party per element" rule)
-    let src = format!("{}pub fn main(x: {}, unused: bool) -> {} {{ x }}\n", defs_text(&d), t.show(&d), t.show(&d));
-    let prg: Box<GarbleProgram> = match gl::compile(&src, true, false) {
+    // in a quarter of the programs some array sizes of the parameter type are given by constants of
+    // the same value (`[[u8; N3]; 2]` with N3 = 3): values, texts and encodings stay the same
+    let mut shown = t.show(&d);
+    let mut consts: garble_lang::GarbleConsts = std::collections::HashMap::new();
+    let mut const_decls = String::new();
+    if g.rng.chance(1, 4) {
+        let mut out = String::new();
+        let mut rest = shown.as_str();
+        while let Some(pos) = rest.find("; ") {
+            let after = &rest[pos + 2..];
+            let digits: String = after.chars().take_while(|c| c.is_ascii_digit()).collect();
+            out.push_str(&rest[..pos + 2]);
+            if !digits.is_empty() && after[digits.len()..].starts_with(']') && g.rng.bool() {
+                let name = format!("N{digits}");
+                if !const_decls.contains(&format!("const {name}:")) {
+                    const_decls += &format!("const {name}: usize = PARTY_0::{name};\n");
+                    consts.entry("PARTY_0".to_string()).or_default().insert(name.clone(), garble_lang::literal::Literal::NumUnsigned(digits.parse().unwrap(), garble_lang::token::UnsignedNumType::Usize));
+                }
+                out.push_str(&name);
+                rest = &after[digits.len()..];
+            } else {
+                rest = after;
+            }
+        }
+        out.push_str(rest);
+        shown = out;
+        if !consts.is_empty() {
+            st.counts.inc("identity programs with const-sized arrays in the parameter type");
+        }
+    }
+    let src = format!("{}{}pub fn main(x: {}, unused: bool) -> {} {{ x }}\n", const_decls, defs_text(&d), shown, shown);
+    let prg: Box<GarbleProgram> = match gl::compile_consts(&src, true, false, consts) {
         CompileOutcome::Ok(p) => p,
         CompileOutcome::Rejected(k, m) => {
             st.counts.inc("identity program rejected");
@@ -529,7 +559,10 @@ fn check_type(ctx: &Ctx, rng: &mut Rng, st: &mut St) {
         };
         // ---- print and parse back
         let printed = lit.to_string();
-        match catch(|| Literal::parse(&prg.program, &prg.main.params[0].ty, &printed)) {
+        // (Literal::parse needs a type without constants: programs with const-sized arrays go
+        // through parse_arg, which resolves the sizes first)
+        let has_consts = !prg.const_sizes.is_empty();
+        match catch(|| if has_consts { prg.parse_arg(0, &printed).map(|a| a.as_literal()).map_err(|e| match e { garble_lang::eval::EvalError::LiteralParseError(e) => e, other => panic!("harness: unexpected error of parse_arg: {other:?}") }) } else { Literal::parse(&prg.program, &prg.main.params[0].ty, &printed) }) {
             Err(p) => {
                 fail(&format!("parsing a printed literal panicked: {p}"), json!({"printed": printed}));
                 return;
